@@ -336,6 +336,110 @@ func c13RectCheck(c *drv.Ctx, base Paths, r [4]int64, xfs []c13Xf) {
 			}
 		}
 	}
+	c13RectLines(c, base, r, xfs)
+}
+
+// c13RectLines: the same paths read as open polylines through RectClipLinesPaths64. The clipper's decisions are
+// comparisons with the rectangle's bounds and signs of cross products, so under an exact affine map (uniform integer
+// scale + translation, rectangle mapped too) the result must have the same pieces with the same vertex counts; a
+// vertex that is an input vertex must map exactly (translations; within the tolerance for scalings: beyond 2^53 the
+// clipper's float64 steps move even input vertices by a few units), a computed crossing within k+tolerance of the image of the base crossing
+// (the base one was rounded by up to half a unit), inside the mapped rectangle and on the line through a mapped input
+// segment (exact big-integer test) within 1 unit for translations, 2 units + 2^-40 of the extent for scalings.
+func c13RectLines(c *drv.Ctx, base Paths, r [4]int64, xfs []c13Xf) {
+	b0 := clipper.RectClipLinesPaths64(clipper.NewRect64(r[0], r[1], r[2], r[3]), base)
+	c.Exec(1)
+	isInput := func(v Pt) bool {
+		for _, p := range base {
+			for _, q := range p {
+				if q == v {
+					return true
+				}
+			}
+		}
+		return false
+	}
+	abs := func(a int64) int64 {
+		if a < 0 {
+			return -a
+		}
+		return a
+	}
+	for _, xf := range xfs {
+		a, b := xf.pt(Pt{X: r[0], Y: r[1]}), xf.pt(Pt{X: r[2], Y: r[3]})
+		tin := xf.paths(base)
+		out := clipper.RectClipLinesPaths64(clipper.NewRect64(a.X, a.Y, b.X, b.Y), tin)
+		c.Exec(1)
+		// tolerance: one unit under translation (C11's bound); under scaling the property allows 2 units plus 2^-40 of the extent
+		tol := int64(1)
+		if xf.k != 1 {
+			lo, hi := min(a.X, a.Y), max(b.X, b.Y)
+			for _, p := range tin {
+				for _, q := range p {
+					lo, hi = min(lo, q.X, q.Y), max(hi, q.X, q.Y)
+				}
+			}
+			tol = 2 + (hi-lo)>>40
+		}
+		bad := ""
+		if len(out) != len(b0) {
+			bad = fmt.Sprintf("%d pieces, the base run has %d", len(out), len(b0))
+		}
+		for i := 0; bad == "" && i < len(out); i++ {
+			if len(out[i]) != len(b0[i]) {
+				bad = fmt.Sprintf("piece %d has %d vertices, the base run's has %d", i, len(out[i]), len(b0[i]))
+				break
+			}
+			for j, v := range out[i] {
+				w := xf.pt(b0[i][j])
+				if isInput(b0[i][j]) && (xf.k == 1 && v != w || abs(v.X-w.X) > tol || abs(v.Y-w.Y) > tol) {
+					bad = fmt.Sprintf("piece %d vertex %d is %v, the image of the input vertex %v is %v", i, j, v, b0[i][j], w)
+				} else if abs(v.X-w.X) > xf.k+tol || abs(v.Y-w.Y) > xf.k+tol {
+					bad = fmt.Sprintf("piece %d vertex %d is %v, the image of the base crossing %v is %v (more than k+tolerance away)", i, j, v, b0[i][j], w)
+				} else if v.X < a.X-tol || v.X > b.X+tol || v.Y < a.Y-tol || v.Y > b.Y+tol {
+					bad = fmt.Sprintf("piece %d vertex %d = %v is more than %d unit(s) outside the rectangle", i, j, v, tol)
+				} else if !c13NearSomeLine(v, tin, tol) {
+					bad = fmt.Sprintf("piece %d vertex %d = %v is more than %d unit(s) from the line through every input segment", i, j, v, tol)
+				}
+				if bad != "" {
+					break
+				}
+			}
+		}
+		if bad != "" {
+			c.Fail("RectClipLinesPaths64", xf.name, "%s: RectClipLinesPaths64(rect %v-%v, %v): %s; result %v; base polyline %v rect %v gives %v", xf.name, a, b, tin, bad, out, base, r, b0)
+		}
+	}
+}
+
+// c13NearSomeLine: v within tol units of the line through some segment of ps (cross^2 <= tol^2 |d|^2, exact).
+func c13NearSomeLine(v Pt, ps Paths, tol int64) bool {
+	var cr, d2, t big.Int
+	tol2 := new(big.Int).Mul(big.NewInt(tol), big.NewInt(tol))
+	for _, p := range ps {
+		for i := 0; i+1 < len(p); i++ {
+			p0, p1 := p[i], p[i+1]
+			dx, dy := big.NewInt(p1.X-p0.X), big.NewInt(p1.Y-p0.Y)
+			if dx.Sign() == 0 && dy.Sign() == 0 {
+				if v == p0 {
+					return true
+				}
+				continue
+			}
+			cr.Mul(dx, big.NewInt(v.Y-p0.Y))
+			t.Mul(dy, big.NewInt(v.X-p0.X))
+			cr.Sub(&cr, &t)
+			cr.Mul(&cr, &cr)
+			d2.Mul(dx, dx)
+			t.Mul(dy, dy)
+			d2.Add(&d2, &t)
+			d2.Mul(&d2, tol2)
+			if cr.Cmp(&d2) <= 0 {
+				return true
+			}
+		}
+	}
+	return false
 }
 
 func c13RectScope(n int) *drv.Scope {
